@@ -438,7 +438,8 @@ def mon_out(stream, case, obs, want):
                 need = len(pending)
             else:
                 need = min(N, len(pending))
-            if len(sent_now) < need:
+            # (a message whose PUBLISH sits in the outgoing queue behind a blocked socket is in progress, not missing)
+            if len(sent_now) < need and p.get("ww") == "0":
                 hits.append((i, "retransmit-missing", f"CONNACK accepted on connection {cur}: {len(sent_now)} of {len(pending)} pending messages (re)transmitted, window={N}"))
         # no idle slot on an established connection
         if "idle" in want and conforming and N > 0 and p.get("st") == "connected" and cur:
